@@ -287,7 +287,16 @@ func (m *Model) deletionMatches(alt *Term, wu *writeUnit, ev map[*types.Var]*Ter
 	case vsrc.Kind == "bound" && tsrc.Kind == "unassigned":
 		return isZeroTerm(alt) // plain INSERT of a body: default 0
 	case vsrc.Kind == "bound" && tsrc.Kind == "bound":
-		// upsert primitive: the flag is selected by the event's own field (R-TOMB checks that); any event value is then what is stored
+		// upsert primitive: the flag is selected by the event's own field (R-TOMB checks that); any event
+		// value is then what is stored - but a flag that is a constant on some paths and a test of the
+		// body on others (`flag || body == nil`) can say "deleted" while a body is stored
+		if whole := ev[ftab["tombstone"]]; whole != nil && len(whole.alts()) > 1 && (alt.Kind == "const" || isZeroTerm(alt) || alt.Kind == "scan") {
+			for _, o := range whole.alts() {
+				if o.Kind == "binop" && o.Name == "==" {
+					return false
+				}
+			}
+		}
 		return true
 	case vsrc.Kind == "unassigned":
 		// body untouched: the flag must be read from the row, or be derived from the (scanned) body
